@@ -12,7 +12,9 @@
 EXTENDS PyScopeGen
 Seq1 == <<"x">>
 Seq2 == <<"x", "y">>
-CONSTANTS FShapes, FFlags, FModFlags
+Seq1C == <<"x", "__class__">>
+CONSTANTS FShapes, FFlags, FModFlags,
+          Mode      \* "all": every configuration;  "cls": __class__ is used only in module > def > class > method, by the method
 Chain4 == { <<0,1,2,3>> }
 Trees3 == { <<0,1>>, <<0,1,2>>, <<0,1,1>> }
 Trees4 == { <<0,1,2,3>>, <<0,1,2,2>>, <<0,1,1,3>> }
@@ -22,9 +24,14 @@ FMod == { {}, {"L"} }
 FModQ == { {"L"} }
 VARIABLES shape, types, fl, v
 TypesOK == types[1] = "module" /\ \A i \in 2..Len(shape) : types[i] # "module"
-FlagsOK == \A i \in 1..Len(shape) : \A n \in Names :
-              /\ ("P" \in fl[i][n] => types[i] = "function")
-              /\ (i = 1 => fl[i][n] \in FModFlags)
+\* __class__ (if it is among the names) is only used, and only by methods: function blocks whose parent is a class
+BlockOK(i, g) == \A n \in Names :
+              IF n = CLS THEN g[n] = {} \/ (g[n] = {"U"} /\ types[i] = "function" /\ i > 1 /\ types[shape[i]] = "class")
+              ELSE /\ ("P" \in g[n] => types[i] = "function")
+                   /\ (i = 1 => g[n] \in FModFlags)
+\* the flag assignments allowed for block i (filtered per block, so that Init never enumerates the
+\* full product of all blocks before filtering)
+Allowed(i) == { g \in [Names -> FFlags \cup FModFlags \cup {{"U"}}] : BlockOK(i, g) }
 Kids(i) == SelectSeq([c \in 1..Len(shape) |-> c], LAMBDA c : shape[c] = i)
 Body(i) ==
   LET per(op, flag) == FoldLeft(LAMBDA acc, n : IF flag \in fl[i][n] THEN Append(acc, Ev(op, n, 0)) ELSE acc, <<>>, NameSeq)
@@ -38,7 +45,11 @@ Prog == TLCEval([i \in 1..Len(shape) |->
             iter |-> "-", tgt |-> "-", ev |-> Body(i)]])
 Init == /\ shape \in FShapes
         /\ types \in [1..Len(shape) -> {"module", "function", "class"}] /\ TypesOK
-        /\ fl \in [1..Len(shape) -> [Names -> FFlags \cup FModFlags]] /\ FlagsOK
+        /\ \E b1 \in Allowed(1), b2 \in Allowed(2) :
+           \E b3 \in (IF Len(shape) >= 3 THEN Allowed(3) ELSE {b1}), b4 \in (IF Len(shape) >= 4 THEN Allowed(4) ELSE {b1}) :
+              fl = SubSeq(<<b1, b2, b3, b4>>, 1, Len(shape))
+        /\ (Mode = "cls" => (\A i \in 1..Len(shape) : fl[i][CLS] = {})
+                            \/ (types = <<"module", "function", "class", "function">> /\ fl[4][CLS] = {"U"}))
         /\ v = "todo"
 Next == /\ v = "todo"
         /\ PrintT(ToJson(Expect(Prog)))
